@@ -504,7 +504,7 @@ func (e *Exec) ccall(st *State, x *ast.CallExpr, env *cenv) Val {
 					}
 					args = append(args, a)
 				}
-				return e.callFunc(st, o, nil, e.packVariadic(st, sig, args), nil)
+				return e.callFunc(e.specState(st), o, nil, e.packVariadic(st, sig, args), nil)
 			case *types.TypeName:
 				return e.conversion(st, arg(0), o.Type(), x.Pos())
 			}
@@ -549,7 +549,7 @@ func (e *Exec) ccall(st *State, x *ast.CallExpr, env *cenv) Val {
 							}
 							args = append(args, a)
 						}
-						return e.callFunc(st, fn, nil, e.packVariadic(st, sig, args), nil)
+						return e.callFunc(e.specState(st), fn, nil, e.packVariadic(st, sig, args), nil)
 					}
 				}
 			}
@@ -581,7 +581,7 @@ func (e *Exec) ccall(st *State, x *ast.CallExpr, env *cenv) Val {
 			}
 			args = append(args, a)
 		}
-		return e.callFunc(st, fn, &recv, e.packVariadic(st, sig, args), nil)
+		return e.callFunc(e.specState(st), fn, &recv, e.packVariadic(st, sig, args), nil)
 	}
 	e.fail(x.Pos(), "contract: unsupported call")
 	return Val{}
